@@ -6,6 +6,7 @@ package jsonrpc2
 
 type verifSection struct{}
 
+func verifPreWrite(c *Connection)                   {}
 func verifGate(c *Connection)                       {}
 func verifEnter(c *Connection) *verifSection        { return nil }
 func verifUpdated(c *Connection, sec *verifSection) {}
